@@ -137,6 +137,23 @@ func (la *lockAnalysis) analyseFunc(fd *ast.FuncDecl, entryLvl int) {
 		la.accesses[fd] = append(la.accesses[fd], a)
 	}
 	callSeen := map[token.Pos]int{}
+	// selector nodes that are the container of an assignment target (m[k] = v): the write covers them
+	lhsBase := map[ast.Expr]bool{}
+	ast.Inspect(fd.Body, func(n ast.Node) bool {
+		switch x := n.(type) {
+		case *ast.AssignStmt:
+			for _, l := range x.Lhs {
+				if ix, ok := ast.Unparen(l).(*ast.IndexExpr); ok {
+					lhsBase[ast.Unparen(ix.X)] = true
+				}
+			}
+		case *ast.IncDecStmt:
+			if ix, ok := ast.Unparen(x.X).(*ast.IndexExpr); ok {
+				lhsBase[ast.Unparen(ix.X)] = true
+			}
+		}
+		return true
+	})
 	h := &Hooks{Info: info}
 	h.Copy = func(s State) State { return s.(*lockState).clone() }
 	h.Join = func(a, b State) State {
@@ -181,7 +198,7 @@ func (la *lockAnalysis) analyseFunc(fd *ast.FuncDecl, entryLvl int) {
 		s := st.(*lockState)
 		switch x := e.(type) {
 		case *ast.SelectorExpr:
-			if f := la.guardedField(x); f != nil {
+			if f := la.guardedField(x); f != nil && !lhsBase[x] {
 				record(lockAccess{fn: fd, field: f, pos: x.Pos(), lvl: s.lvl})
 				if s.lvl > 0 {
 					s.cur[f] = true
